@@ -27,7 +27,7 @@ type cop struct {
 	StopAt int           `json:"stop,omitempty"`
 	Now    int64         `json:"now,omitempty"` // clock: absolute instant to move to
 	CbID   int           `json:"cb,omitempty"`
-	CbMode string        `json:"cbmode,omitempty"` // "" | once (unregisters itself when first invoked) | adv (takes longer than short TTLs: moves the clock)
+	CbMode string        `json:"cbmode,omitempty"` // "" | once (unregisters itself when first invoked) | adv (takes longer than short TTLs: moves the clock) | probe (calls Count() from inside)
 }
 
 type kvp struct {
@@ -39,6 +39,7 @@ type cbrec struct {
 	K  int
 	V  any
 	ID int // which installed callback
+	N  int // "probe" callbacks: Count() observed from inside the callback, +1 (0: not probed)
 }
 
 type cres struct {
@@ -380,7 +381,11 @@ func applyCop(in *seqInst, op cop, exotic bool) (r cres) {
 			id, mode := op.CbID, op.CbMode
 			in.onceDone = false
 			c.SetEvictedCallback(func(k int, v any) {
-				in.cbs = append(in.cbs, cbrec{k, v, id})
+				rec := cbrec{K: k, V: v, ID: id}
+				if mode == "probe" {
+					rec.N = c.Count() + 1 // a callback may call back in; twins must see the same
+				}
+				in.cbs = append(in.cbs, rec)
 				switch mode {
 				case "once":
 					if !in.onceDone {
@@ -417,7 +422,7 @@ func (sr *seqRunner) runSeqCase(cs *seqCase) (nontrivial bool, fp uint64) {
 		in := &seqInst{}
 		sp.NKeys = cs.NKeys
 		if sp.Callback != nil {
-			sp.Callback = func(k int, v any) { in.cbs = append(in.cbs, cbrec{k, v, 1}) }
+			sp.Callback = func(k int, v any) { in.cbs = append(in.cbs, cbrec{K: k, V: v, ID: 1}) }
 		}
 		in.c = newCache(sp)
 		insts[i] = in
@@ -963,16 +968,25 @@ func sameCbs(a, b []cbrec) bool {
 	if len(a) != len(b) {
 		return false
 	}
+	// the order in which one call reports several entries is unspecified (it follows
+	// the table layout), so the records are compared as multisets; what "probe"
+	// callbacks saw from inside (Count) is compared as a multiset of its own, not
+	// per key: which entry is reported first may differ between twins
 	key := func(c cbrec) string { return fmt.Sprintf("%d/%s/%d", c.K, fmtVal(c.V), c.ID) }
 	x := make([]string, len(a))
 	y := make([]string, len(b))
+	nx := make([]int, len(a))
+	ny := make([]int, len(b))
 	for i := range a {
 		x[i], y[i] = key(a[i]), key(b[i])
+		nx[i], ny[i] = a[i].N, b[i].N
 	}
 	sort.Strings(x)
 	sort.Strings(y)
+	sort.Ints(nx)
+	sort.Ints(ny)
 	for i := range x {
-		if x[i] != y[i] {
+		if x[i] != y[i] || nx[i] != ny[i] {
 			return false
 		}
 	}
